@@ -135,8 +135,12 @@ Qed.
    the guard of theorem C08_hull:
      n >= 2 : magnitude above 2^1021 (or non-finite)        (boundedb, Model/Sensor.v)
      n  = 1 : not an integer of magnitude below 2^52 *)
+(* exact: the value in units of 2^-1074 is a multiple of 2^1074 and below 2^52 * 2^1074 *)
 Definition small_intb (v : f64) : bool :=
-  PrimFloat.ltb (PrimFloat.abs v) 0x1p52%float && feqb (i2f (f2i v)) (PrimFloat.add v 0).
+  match fz v with
+  | Some V => (V mod 2 ^ 1074 =? 0) && (Z.abs V <? 2 ^ 1126)
+  | None => false
+  end.
 
 Definition in_guardb (n : Z) (v : f64) : bool := if n =? 1 then small_intb v else boundedb v.
 
